@@ -287,122 +287,39 @@ fn witness_supras(sy: &mut Syllable, alphas: &RefCell<HashMap<char, Alpha>>, p: 
     lemma_run_len(self.segments@, pos as int);
     lemma_resized_len_all(self.segments@, pos as int);
 //@ end
-//@ loop Syllable::apply_supras 0
+// The eight resize loops come in two shapes, told apart by their HEADER (`while seg_len < N` grows the run by inserting
+// copies, `while seg_len > N` shrinks it by removing them).  The invariants are keyed on that header, not on the loop
+// ordinal, so a loop that is deleted, added or moved still gets its invariant and what then fails (or not) is the
+// length table in the postcondition.  A loop with any other header is an anchor loss (exit 2).
+//@ loop_each_ghost_before Syllable::apply_supras while seg_len [<>] (\d+)
+    let ghost e_in = seg_len as int;     // run length at loop entry (a loop may follow another one)
+//@ end
+//@ loop_each Syllable::apply_supras while seg_len < (\d+)
     invariant
         pos < old(self).segments@.len(), seg == old(self).segments@[pos as int],
         self.segments@ =~= resized(old(self).segments@, pos as int, seg_len as int),
         len_change as int == seg_len as int - run_len(old(self).segments@, pos as int),
-        1 <= seg_len, seg_len as int >= run_len(old(self).segments@, pos as int), seg_len <= 3 || seg_len as int == run_len(old(self).segments@, pos as int),
+        1 <= seg_len, e_in <= seg_len, seg_len <= $1 || seg_len as int == e_in,
         self.stress == old(self).stress, self.tone == old(self).tone,
-    decreases 3 - seg_len,
+    decreases $1 - seg_len,
 //@ end
-//@ loop_proof_start Syllable::apply_supras 0
+//@ loop_each_proof_start Syllable::apply_supras while seg_len < (\d+)
     lemma_resized_len(old(self).segments@, pos as int, seg_len as int);
     lemma_run_len(old(self).segments@, pos as int);
 //@ end
-//@ loop_proof_end Syllable::apply_supras 0
+//@ loop_each_proof_end Syllable::apply_supras while seg_len < (\d+)
     lemma_resize_insert(old(self).segments@, pos as int, seg_len as int - 1);
 //@ end
-//@ loop Syllable::apply_supras 1
+//@ loop_each Syllable::apply_supras while seg_len > (\d+)
     invariant
         pos < old(self).segments@.len(), seg == old(self).segments@[pos as int],
         self.segments@ =~= resized(old(self).segments@, pos as int, seg_len as int),
         len_change as int == seg_len as int - run_len(old(self).segments@, pos as int),
-        1 <= seg_len, seg_len as int <= run_len(old(self).segments@, pos as int), seg_len >= 2 || seg_len as int == run_len(old(self).segments@, pos as int),
+        1 <= seg_len, seg_len <= e_in, seg_len >= $1 || seg_len as int == e_in,
         self.stress == old(self).stress, self.tone == old(self).tone,
     decreases seg_len,
 //@ end
-//@ loop_proof_start Syllable::apply_supras 1
-    lemma_resized_len(old(self).segments@, pos as int, seg_len as int);
-    lemma_run_len(old(self).segments@, pos as int);
-    lemma_resize_remove(old(self).segments@, pos as int, seg_len as int);
-//@ end
-//@ loop Syllable::apply_supras 2
-    invariant
-        pos < old(self).segments@.len(), seg == old(self).segments@[pos as int],
-        self.segments@ =~= resized(old(self).segments@, pos as int, seg_len as int),
-        len_change as int == seg_len as int - run_len(old(self).segments@, pos as int),
-        1 <= seg_len, seg_len as int >= run_len(old(self).segments@, pos as int), seg_len <= 2 || seg_len as int == run_len(old(self).segments@, pos as int),
-        self.stress == old(self).stress, self.tone == old(self).tone,
-    decreases 2 - seg_len,
-//@ end
-//@ loop_proof_start Syllable::apply_supras 2
-    lemma_resized_len(old(self).segments@, pos as int, seg_len as int);
-    lemma_run_len(old(self).segments@, pos as int);
-//@ end
-//@ loop_proof_end Syllable::apply_supras 2
-    lemma_resize_insert(old(self).segments@, pos as int, seg_len as int - 1);
-//@ end
-//@ loop Syllable::apply_supras 3
-    invariant
-        pos < old(self).segments@.len(), seg == old(self).segments@[pos as int],
-        self.segments@ =~= resized(old(self).segments@, pos as int, seg_len as int),
-        len_change as int == seg_len as int - run_len(old(self).segments@, pos as int),
-        1 <= seg_len, seg_len as int <= run_len(old(self).segments@, pos as int), seg_len >= 1 || seg_len as int == run_len(old(self).segments@, pos as int),
-        self.stress == old(self).stress, self.tone == old(self).tone,
-    decreases seg_len,
-//@ end
-//@ loop_proof_start Syllable::apply_supras 3
-    lemma_resized_len(old(self).segments@, pos as int, seg_len as int);
-    lemma_run_len(old(self).segments@, pos as int);
-    lemma_resize_remove(old(self).segments@, pos as int, seg_len as int);
-//@ end
-//@ loop Syllable::apply_supras 4
-    invariant
-        pos < old(self).segments@.len(), seg == old(self).segments@[pos as int],
-        self.segments@ =~= resized(old(self).segments@, pos as int, seg_len as int),
-        len_change as int == seg_len as int - run_len(old(self).segments@, pos as int),
-        1 <= seg_len, seg_len as int >= run_len(old(self).segments@, pos as int), seg_len <= 3 || seg_len as int == run_len(old(self).segments@, pos as int),
-        self.stress == old(self).stress, self.tone == old(self).tone,
-    decreases 3 - seg_len,
-//@ end
-//@ loop_proof_start Syllable::apply_supras 4
-    lemma_resized_len(old(self).segments@, pos as int, seg_len as int);
-    lemma_run_len(old(self).segments@, pos as int);
-//@ end
-//@ loop_proof_end Syllable::apply_supras 4
-    lemma_resize_insert(old(self).segments@, pos as int, seg_len as int - 1);
-//@ end
-//@ loop Syllable::apply_supras 5
-    invariant
-        pos < old(self).segments@.len(), seg == old(self).segments@[pos as int],
-        self.segments@ =~= resized(old(self).segments@, pos as int, seg_len as int),
-        len_change as int == seg_len as int - run_len(old(self).segments@, pos as int),
-        1 <= seg_len, seg_len as int <= run_len(old(self).segments@, pos as int), seg_len >= 2 || seg_len as int == run_len(old(self).segments@, pos as int),
-        self.stress == old(self).stress, self.tone == old(self).tone,
-    decreases seg_len,
-//@ end
-//@ loop_proof_start Syllable::apply_supras 5
-    lemma_resized_len(old(self).segments@, pos as int, seg_len as int);
-    lemma_run_len(old(self).segments@, pos as int);
-    lemma_resize_remove(old(self).segments@, pos as int, seg_len as int);
-//@ end
-//@ loop Syllable::apply_supras 6
-    invariant
-        pos < old(self).segments@.len(), seg == old(self).segments@[pos as int],
-        self.segments@ =~= resized(old(self).segments@, pos as int, seg_len as int),
-        len_change as int == seg_len as int - run_len(old(self).segments@, pos as int),
-        1 <= seg_len, seg_len <= 2, seg_len as int >= (if run_len(old(self).segments@, pos as int) > 2 { 2 } else { run_len(old(self).segments@, pos as int) }),
-        self.stress == old(self).stress, self.tone == old(self).tone,
-    decreases 2 - seg_len,
-//@ end
-//@ loop_proof_start Syllable::apply_supras 6
-    lemma_resized_len(old(self).segments@, pos as int, seg_len as int);
-    lemma_run_len(old(self).segments@, pos as int);
-//@ end
-//@ loop_proof_end Syllable::apply_supras 6
-    lemma_resize_insert(old(self).segments@, pos as int, seg_len as int - 1);
-//@ end
-//@ loop Syllable::apply_supras 7
-    invariant
-        pos < old(self).segments@.len(), seg == old(self).segments@[pos as int],
-        self.segments@ =~= resized(old(self).segments@, pos as int, seg_len as int),
-        len_change as int == seg_len as int - run_len(old(self).segments@, pos as int),
-        1 <= seg_len, seg_len as int <= run_len(old(self).segments@, pos as int), seg_len >= 1 || seg_len as int == run_len(old(self).segments@, pos as int),
-        self.stress == old(self).stress, self.tone == old(self).tone,
-    decreases seg_len,
-//@ end
-//@ loop_proof_start Syllable::apply_supras 7
+//@ loop_each_proof_start Syllable::apply_supras while seg_len > (\d+)
     lemma_resized_len(old(self).segments@, pos as int, seg_len as int);
     lemma_run_len(old(self).segments@, pos as int);
     lemma_resize_remove(old(self).segments@, pos as int, seg_len as int);
